@@ -80,7 +80,10 @@ CallOk(j, e) ==
         IF kind = "ok" THEN
            IF HasErr(inner, "eW") \/ HasErr(inner, "eO") \/ HasZero(inner) THEN <<FALSE, j>>
            ELSE LET res == JudgePrefix(j, e.buf, inner, n) IN <<res[2] = 0, res[1]>>
-        ELSE <<(kind \in {"eW", "eO"} /\ HasErr(inner, kind)) \/ (kind = "eZ" /\ HasZero(inner)) \/ kind = "eF", j>>
+        \* ("eF", a formatter error, is what the fmt adapter reports when it has NO stored I/O error: with an inner error on record
+        \*  it means the error's kind was lost)
+        ELSE <<(kind \in {"eW", "eO"} /\ HasErr(inner, kind)) \/ (kind = "eZ" /\ HasZero(inner))
+               \/ (kind = "eF" /\ ~(\E k \in 1..Len(inner) : IsErr(inner[k][3])) /\ ~HasZero(inner)), j>>
 
 \* a call after which a protocol-following caller stops
 Terminal(e) == e.ret[1] \in {"eW", "eO", "eZ", "eF"}
